@@ -503,6 +503,10 @@ impl Prop for C04 {
     fn mode(&self) -> Mode {
         Mode::Children
     }
+    fn crash_is_violation(&self) -> bool {
+        // totality of the evaluators is C11's subject
+        false
+    }
     fn n_cases(&self, tier: Tier) -> u64 {
         tier.pick(6000, 300_000)
     }
